@@ -382,7 +382,7 @@ func outCampaign(r *ev.Run, prop string) {
 						r.Violation("output:goroutine-left-behind", map[string]any{"kind": "BrokerOut-trace", "och_cap": cp, "io": io, "settle": ru.opts.Settle,
 							"seed": ru.opts.Seed, "schedule": ru.sched, "trace": ru.res.Trace, "leaked": ru.res.Leaked, "executions_leaking": len(leakedRuns)})
 					} else if n == 1 {
-						r.Inconclusive("leak reproduced only once in four re-executions: %v", ru.sched)
+						r.Inconclusive("leak reproduced only once in eight re-executions: %v", ru.sched)
 					} else {
 						transient(r, "a goroutine left behind by %v", ru.sched)
 					}
@@ -457,7 +457,7 @@ func outCampaign(r *ev.Run, prop string) {
 					case n >= 2:
 						r.Violation(aspect, detail)
 					case n == 1:
-						r.Inconclusive("rejected trace reproduced only once in four re-executions (%s): %v\n  trace: %v (refused at %d)", aspect, ru.sched, traces[k], at)
+						r.Inconclusive("rejected trace reproduced only once in eight re-executions (%s): %v\n  trace: %v (refused at %d)", aspect, ru.sched, traces[k], at)
 					default:
 						transient(r, "rejected trace (%s): %v\n  trace: %v (refused at %d)", aspect, ru.sched, traces[k], at)
 					}
@@ -494,7 +494,7 @@ func outCampaign(r *ev.Run, prop string) {
 // the refusal was a transient of the recording on this machine, not of the code.
 func reproduces(ru *outRun, cfgText, prop, aspect string) int {
 	hits := 0
-	for k := 0; k < 4 && hits < 2; k++ {
+	for k := 0; k < 8 && hits < 2; k++ {
 		res := brk.RunOut(ru.sched, ru.opts)
 		if res.Infra != nil {
 			continue
@@ -522,7 +522,7 @@ func reproduces(ru *outRun, cfgText, prop, aspect string) int {
 
 // transient notes a refusal that did not come back in four further executions.
 func transient(r *ev.Run, format string, a ...any) {
-	fmt.Printf("note: seen once and not again in four re-executions: "+format+"\n", a...)
+	fmt.Printf("note: seen once and not again in eight re-executions: "+format+"\n", a...)
 	r.Add("transients_not_reproduced", 1)
 }
 
